@@ -210,6 +210,15 @@ package sparseindex
 //@     invariant cbTrue == old(cbTrue)
 
 //@ func (*KeyConditionImpl).checkRangeLeftRightBound
+// the box examined for key column `prefixSize` is bounded by the LEFT key on the left and the RIGHT key on the
+// right; on the last key column the bounds are inclusive (the two end points belong to the fragment)
+//@   requires 0 <= prefixSize && prefixSize < len(leftKeys) && prefixSize < len(rightKeys)
+//@   call createLeftBounded
+//@     requires arg0 == leftKeys[prefixSize] && (prefixSize+1 == keySize ==> arg1)
+//@   call createRightBounded
+//@     requires arg0 == rightKeys[prefixSize] && (prefixSize+1 == keySize ==> arg1)
+//@   call NewRange
+//@     requires arg0 == leftKeys[prefixSize] && arg1 == rightKeys[prefixSize] && (prefixSize+1 == keySize ==> arg2 && arg3)
 //@   call callBack
 //@     set cbTrue = cbTrue || (ret1 == nil && ret0.canBeTrue)
 //@   ensures old(cbTrue) ==> cbTrue
